@@ -237,6 +237,13 @@ func cmdVerify(args []string) {
 				if !ok && q.obl != nil && q.obl.Clause != "" {
 					fmt.Printf("        clause: %s\n", q.obl.Clause)
 				}
+				if q.Result.Status == "error" {
+					o := q.Result.Output
+					if len(o) > 300 {
+						o = o[:300]
+					}
+					fmt.Printf("        solver: %s\n", strings.ReplaceAll(o, "\n", " | "))
+				}
 			}
 		}
 		fmt.Printf("   %d obligations\n", len(r.Queries))
